@@ -22,5 +22,5 @@ PROPS = {
     "C08": {"kani": [{"module": "c08", "profiles": Q_DEV_T_BOTH}, funnel("funnel_make_unique", "funnel_offset_make_mut", "tv_make_mut", "tv_is_unique")], "wmm": True, "prepare": True},
     "C09": {"kani": [{"module": "c09", "profiles": Q_DEV_T_BOTH}, funnel("funnel_try_from", "tv_try_unwrap", "tv_unwrap_or_clone", "tv_try_unique", "tv_drop")], "wmm": True, "prepare": True},
     "C01": {"kani": [{"module": "c01", "profiles": Q_DEV}]},
-    "C16": {"kani": [{"module": "c16", "profiles": Q_DEV_T_BOTH}]},
+    "C16": {"kani": [{"module": "c16", "profiles": Q_DEV_T_BOTH}, {"module": "c16n", "crate": "kani_nostd", "profiles": Q_DEV}]},
 }
